@@ -255,6 +255,8 @@ def units(tier, seed):
             out.append(("mutate", {"curve": cn, "group": grp, "full": not q}))
         out.append(("pem", {"curve": cn}))
         out.append(("strings", {"curve": cn}))
+    out.append(("mutate", {"curve": "NIST224p", "group": "vk-string", "full": not q}))
+    out.append(("mutate", {"curve": "NIST224p", "group": "vk-der", "full": False}))
     for i in range(4):
         out.append(("random", {"curve": curves[i % len(curves)], "examples": 1500 if q else 40000, "label": "r%d" % i}))
     out.append(("cross", {"curves": curves}))
